@@ -21,7 +21,7 @@ LEVEL_NOTE = ("A finite budget decides 'never returns' for the loops that perfor
 PLAN = {"quick": dict(shards=16, budget=50), "thorough": dict(shards=32, budget=400)}
 RULE = ("repair_dna(s, CountingAccessor(G), v, k, check, has_indel, heap_size <= 1e4) for ACGT strings with |s| >= k: walks with "
         "0-8 edits anywhere, first nucleotide not an arc of v for every live v, v a dead vertex, an error at each of the last k "
-        "positions, random strings, alternating error/clean blocks of period k+1, |s| == k; arc-subset (also unpruned) and "
+        "positions, a closed walk with one error repeated 40-70 times (40-70 error sites), random strings, alternating error/clean blocks of period k+1, |s| == k; arc-subset (also unpruned) and "
         "generated graphs, k = 1..4 (5 thorough). Verdict: returns (list of ACGT strings, statistics tuple) within the look-up and "
         "loop budgets, no exception. Non-trivial: the strand is not a walk from v; distinct = hash of the case.")
 
@@ -73,6 +73,14 @@ def generate(ctx):
         if dead:
             v = rng.choice(dead)
             yield "repair", dict(gcase, start=int(v), s=gens.random_dna(rng, rng.randint(k, 4 * k + 3)), tag="dead-start", **opts())
+        # many error sites: a closed walk carrying one detectable error, repeated 40-70 times (the candidate product of a
+        # conforming repair exceeds any heap limit and 2^63; it must fall back, not enumerate)
+        if rng.random() < ctx.pick(0.35, 0.5):
+            unit = _closed_walk_with_error(rng, acc, k, live)
+            if unit is not None:
+                v0, text = unit
+                reps = rng.choice([40, 50, 60, 62, 63, 64, 65, 70])
+                yield "repair", dict(gcase, start=int(v0), s=text * reps, tag="many-error-sites", **opts())
         for _w in range(ctx.pick(3, 5)):
             start = rng.choice(live)
             w = G.random_walk(acc, start, rng.choice([k, 2 * k + 1, 4 * k + 3, 8 * k + 5, 14 * k + 9]), rng)
@@ -100,6 +108,43 @@ def generate(ctx):
             yield "repair", dict(gcase, start=int(start), s="".join(alt), tag="alternating", **opts())
             yield "repair", dict(gcase, start=int(start), s=gens.random_dna(rng, max(k, len(w))), tag="random", **opts())
             yield "repair", dict(gcase, start=int(start), s=rng.choice("ACGT") * max(k, len(w)), tag="homopolymer", **opts())
+
+
+def _closed_walk_with_error(rng, acc, k, live):
+    """(start, text): text is a closed walk from start (length >= 3k+3) with one substitution that makes it leave the graph."""
+    for _ in range(20):
+        v0 = int(rng.choice(live))
+        w = G.random_walk(acc, v0, rng.randint(3 * k + 3, 6 * k + 8), rng)
+        if len(w) < 3 * k + 3:
+            continue
+        # close the walk: find the shortest continuation back to v0 (BFS over <= 3k+6 steps)
+        end = G.walk(acc, v0, w)["end"]
+        frontier, seen = [(end, "")], {end}
+        closing = None
+        while frontier and closing is None:
+            nxt = []
+            for v, path in frontier:
+                if v == v0 and (path or end == v0):
+                    closing = path
+                    break
+                if len(path) > 3 * k + 6:
+                    continue
+                for j in range(4):
+                    u = int(acc[v, j])
+                    if u >= 0 and (u not in seen or u == v0):
+                        seen.add(u)
+                        nxt.append((u, path + "ACGT"[j]))
+            frontier = nxt
+        if closing is None:
+            continue
+        c = w + closing
+        for _try in range(12):
+            p = rng.randrange(k, max(k + 1, len(c) - 2 * k))
+            x = rng.choice([ch for ch in "ACGT" if ch != c[p]])
+            bad = c[:p] + x + c[p + 1:]
+            if not G.walk(acc, v0, bad)["ok"]:
+                return v0, bad
+    return None
 
 
 def check_repair(ctx, case):
@@ -137,7 +182,7 @@ def floors(agg, tier):
     c = agg["classes"]
     for name, need in (("string|first-not-an-arc", 500), ("string|dead-start", 50), ("string|last-window", 300),
                        ("string|first-window", 300), ("string|random", 200), ("string|alternating", 200), ("string|length-k", 200),
-                       ("string|edited", 500), ("family|raw", 200)):
+                       ("string|edited", 500), ("family|raw", 200), ("string|many-error-sites", 30)):
         if c.get(name, 0) < need:
             out.append("%s observed %d < %d" % (name, c.get(name, 0), need))
     return out
